@@ -66,6 +66,7 @@ def case_strategy(draw, model):
     else:
         case["labels2"] = labels
     case["perm"] = list(draw(st.permutations(list(range(k)))))
+    case["pred_scales"] = draw(st.sampled_from([[], [1e3], [1e3, 1e6], [-1e4], [30.]]))
     return case
 
 
@@ -87,6 +88,53 @@ def build(case, alpha):
     if m == "GLE-Logistic":
         return skglm.GeneralizedLinearEstimator(Logistic(), L1(alpha), ProxNewton(tol=1e-10, max_iter=200, fit_intercept=fi))
     return skglm.GeneralizedLinearEstimator(QuadraticSVC(), IndicatorBox(case["C"]), AndersonCD(tol=1e-10, max_iter=500, fit_intercept=False))
+
+
+def judge_outputs(m, Xs, dec, cl, k, n, sig, scl):
+    viol = []
+    tag = "" if scl == 1. else f" (prediction inputs = {scl:g} x training inputs)"
+    with np.errstate(all="ignore"):
+        pred = np.asarray(m.predict(Xs))
+    if pred.shape != (n,):
+        viol.append(Viol(dict(sig, kind="predict-shape"), f"predict returns shape {pred.shape} for {n} samples ({k} classes){tag}"))
+        return viol
+    tie = 1e-6 * max(1., abs(scl))
+    if k == 2:
+        want = np.where(dec > 0, cl[1], cl[0])
+        clear = np.abs(dec) > tie
+    else:
+        want = np.array(cl)[np.argmax(dec, axis=1)]
+        srt = np.sort(dec, axis=1)
+        clear = (srt[:, -1] - srt[:, -2]) > tie
+    if np.any(pred[clear].astype(str) != want[clear].astype(str)):
+        i = int(np.flatnonzero(pred[clear].astype(str) != want[clear].astype(str))[0])
+        viol.append(Viol(dict(sig, kind="predict-vs-decision"), f"predict gives {pred[clear][i]!r} where the decision function selects {want[clear][i]!r} (classes_ {cl}){tag}"))
+    # probabilities
+    if hasattr(m, "predict_proba"):
+        with np.errstate(all="ignore"):
+            P_ = np.asarray(m.predict_proba(Xs), float)
+        if P_.shape != (n, k) or not np.all(np.isfinite(P_)) or np.any(P_ < 0) or np.any(P_ > 1) or np.max(np.abs(P_.sum(1) - 1)) > 1e-12:
+            viol.append(Viol(dict(sig, kind="proba-not-a-distribution", rescaled=(scl != 1.)),
+                             f"predict_proba rows are not probability vectors (shape {P_.shape}, row sums {P_.sum(1)[:3].tolist()}){tag}"))
+        else:
+            D = np.c_[-dec, dec] if k == 2 else dec
+            for c in range(k):
+                o = np.argsort(D[:, c], kind="stable")
+                if k == 2:
+                    pc = P_[o, c]
+                    dd = D[o, c]
+                    bad = np.flatnonzero((np.diff(pc) < -1e-12) & (np.diff(dd) > 1e-9 * max(1., abs(scl))))
+                    if len(bad):
+                        viol.append(Viol(dict(sig, kind="proba-not-monotone"), f"binary probability of class {cl[c]!r} decreases while its decision value increases{tag}"))
+                        break
+            if k > 2:
+                # OvR normalisation: p_k proportional to sigmoid(decision_k)
+                S = 1 / (1 + np.exp(-dec))
+                ref = S / S.sum(1, keepdims=True)
+                if np.max(np.abs(ref - P_)) > 1e-9:
+                    viol.append(Viol(dict(sig, kind="proba-vs-decision"), "multiclass probabilities are not the normalised logistic transform of the decision values "
+                                     f"(max dev {np.max(np.abs(ref - P_)):.2e}){tag}"))
+    return viol
 
 
 def check_case(case):
@@ -121,50 +169,40 @@ def check_case(case):
     if sorted(map(str, cl)) != sorted(map(str, labels)):
         viol.append(Viol(dict(sig, kind="classes_"), f"classes_ = {cl} for labels {labels}"))
         return result(viol, True, classes)
-    def decision(mm):
+    def decision(mm, Xs=None, Xd=None):
+        Xs = Xin if Xs is None else Xs
+        Xd = X if Xd is None else Xd
         if hasattr(mm, "decision_function"):
-            return np.asarray(mm.decision_function(Xin), float)
-        d = np.asarray(X @ np.asarray(mm.coef_, float).reshape(-1, p).T + np.asarray(mm.intercept_, float), float)   # the fitted linear model(s)
+            return np.asarray(mm.decision_function(Xs), float)
+        d = np.asarray(Xd @ np.asarray(mm.coef_, float).reshape(-1, p).T + np.asarray(mm.intercept_, float), float)   # the fitted linear model(s)
         return d.ravel() if d.shape[1] == 1 else d
-    dec = decision(m)
-    pred = np.asarray(m.predict(Xin))
-    if pred.shape != (n,):
-        viol.append(Viol(dict(sig, kind="predict-shape"), f"predict returns shape {pred.shape} for {n} samples ({k} classes)"))
+    dec = None
+    # the outputs are judged on the training inputs and on rescaled copies of them (prediction-time inputs are
+    # arbitrary: decision values far outside [-700, 700] must still give finite probabilities summing to one)
+    for scl in [1.] + list(case.get("pred_scales", [])):
+        Xd_ = X * scl
+        Xs_ = sparse.csc_matrix(Xd_) if case["storage"] == "csc" else Xd_
+        with np.errstate(all="ignore"):
+            d_ = decision(m, Xs_, Xd_)
+        if scl == 1.:
+            dec = d_
+        if not np.all(np.isfinite(d_)):
+            continue
+        if scl != 1.:
+            if k > 2 and np.max(np.abs(d_)) > 500:
+                continue    # sigmoid(d) underflows for every class: OvR normalisation 0/0 is the float range, not the property
+            classes.append("rescaled-prediction-inputs")
+        viol += judge_outputs(m, Xs_, d_, cl, k, n, sig, scl)
+        if viol:
+            break
+    if viol:
         return result(viol, True, classes)
-    tie = 1e-6
+    pred = np.asarray(m.predict(Xin))
     if k == 2:
-        want = np.where(dec > 0, cl[1], cl[0])
-        clear = np.abs(dec) > tie
+        clear = np.abs(dec) > 1e-6
     else:
-        want = np.array(cl)[np.argmax(dec, axis=1)]
         srt = np.sort(dec, axis=1)
-        clear = (srt[:, -1] - srt[:, -2]) > tie
-    if np.any(pred[clear].astype(str) != want[clear].astype(str)):
-        i = int(np.flatnonzero(pred[clear].astype(str) != want[clear].astype(str))[0])
-        viol.append(Viol(dict(sig, kind="predict-vs-decision"), f"predict gives {pred[clear][i]!r} where the decision function selects {want[clear][i]!r} (classes_ {cl})"))
-    # probabilities
-    if hasattr(m, "predict_proba"):
-        P_ = np.asarray(m.predict_proba(Xin), float)
-        if P_.shape != (n, k) or np.any(P_ < 0) or np.any(P_ > 1) or np.max(np.abs(P_.sum(1) - 1)) > 1e-12:
-            viol.append(Viol(dict(sig, kind="proba-not-a-distribution"), f"predict_proba rows are not probability vectors (shape {P_.shape}, row sums {P_.sum(1)[:3].tolist()})"))
-        else:
-            D = np.c_[-dec, dec] if k == 2 else dec
-            for c in range(k):
-                o = np.argsort(D[:, c], kind="stable")
-                if k == 2:
-                    pc = P_[o, c]
-                    dd = D[o, c]
-                    bad = np.flatnonzero((np.diff(pc) < -1e-12) & (np.diff(dd) > 1e-9))
-                    if len(bad):
-                        viol.append(Viol(dict(sig, kind="proba-not-monotone"), f"binary probability of class {cl[c]!r} decreases while its decision value increases"))
-                        break
-            if k > 2:
-                # OvR normalisation: p_k proportional to sigmoid(decision_k)
-                S = 1 / (1 + np.exp(-dec))
-                ref = S / S.sum(1, keepdims=True)
-                if np.max(np.abs(ref - P_)) > 1e-9:
-                    viol.append(Viol(dict(sig, kind="proba-vs-decision"), "multiclass probabilities are not the normalised logistic transform of the decision values "
-                                     f"(max dev {np.max(np.abs(ref - P_)):.2e})"))
+        clear = (srt[:, -1] - srt[:, -2]) > 1e-6
     # relabelling
     perm = case["perm"]
     labels2 = case["labels2"]
